@@ -415,3 +415,32 @@ Fixpoint wait_loop (hx hy hz : list Z) (stream : list pos) (consumed : nat) : na
       else wait_loop hx' hy' hz' r (S consumed)
   end.
 Definition wait_for_position_estimator (stream : list pos) : nat * bool := wait_loop hist0 hist0 hist0 stream 0.
+
+(* ---------------------------------------------------------------- per-member link state (Wave 12) *)
+(* After open_links a member's link can go down on its own (Crazyflie.disconnected, or the member is closed
+   individually) while the swarm stays open.  The swarm state carries _is_open and a per-member link flag; the
+   runners iterate self._cfs.items() and never consult either: `action_members`.  `restrict c ms` is the
+   configuration of the run over the member list ms (what the transition system / sequential are run on). *)
+Inductive sev := SOpenOk | SCloseAll | SLinkDown (k : nat) | SLinkUp (k : nat).
+Definition sstate := (bool * (nat -> bool))%type.
+Definition sstate0 : sstate := (false, fun _ => false).
+Definition set_flag (f : nat -> bool) (k : nat) (v : bool) : nat -> bool := fun j => if Nat.eqb j k then v else f j.
+Definition sstep (s : sstate) (e : sev) : sstate :=
+  match e with
+  | SOpenOk => (true, fun _ => true)
+  | SCloseAll => (false, fun _ => false)
+  | SLinkDown k => (fst s, set_flag (snd s) k false)
+  | SLinkUp k => (fst s, set_flag (snd s) k true)
+  end.
+Definition srun (evs : list sev) : sstate := fold_left sstep evs sstate0.
+
+Definition action_members (c : cfg) (s : sstate) : list nat := seq 0 (n c).
+(* the variant that leaves out members whose link is down once the swarm is open *)
+Definition action_members_filtered (c : cfg) (s : sstate) : list nat :=
+  if fst s then filter (snd s) (seq 0 (n c)) else seq 0 (n c).
+
+Definition restrict (c : cfg) (ms : list nat) : cfg :=
+  {| n := List.length ms;
+     inst := fun k => inst c (nth k ms O);
+     args := fun k => if Nat.ltb k (List.length ms) then args c (nth k ms O) else None;
+     fails := fun k => fails c (nth k ms O) |}.
